@@ -51,10 +51,10 @@ Fold(recs, i, acc) ==
               ELSE IF r.type = "PATH" THEN [acc EXCEPT !.paths = Append(@, r.data)]
               ELSE IF r.type = "SOCKADDR" THEN
                    (IF ~Has(acc.data, "syscall") THEN acc
-                    ELSE [acc EXCEPT !.data = Overlay(@, Socket(r.data)),
+                    ELSE [acc EXCEPT !.data = AddMissing(@, Socket(r.data)),
                                      !.src_preset = @ \/ (acc.data["syscall"] \in Incoming
                                                           /\ (NonEmpty(r.data, "addr") \/ NonEmpty(r.data, "port") \/ NonEmpty(r.data, "path")))])
-              ELSE IF r.type = "EXECVE" THEN [acc EXCEPT !.data = IF Has(r.data, "argc") THEN Put(@, "argc", r.data["argc"]) ELSE @]
+              ELSE IF r.type = "EXECVE" THEN [acc EXCEPT !.data = IF Has(r.data, "argc") THEN AddMissing(@, Restrict(r.data, { "argc" })) ELSE @]
               ELSE [acc EXCEPT !.data = AddMissing(@, r.data)])
 
 FirstSyscall(recs) == CHOOSE i \in 1..Len(recs) : recs[i].type = "SYSCALL" /\ \A j \in 1..(i - 1) : recs[j].type # "SYSCALL"
